@@ -158,12 +158,19 @@ def run(tier, replay=None):
                         os.remove(os.path.join(wd, fn))
                 fd = os.open(os.path.join(wd, "in.dat"), os.O_RDONLY)
                 try:
-                    p = subprocess.run(argv, cwd=wd, stdin=fd, stdout=subprocess.PIPE, stderr=subprocess.PIPE, timeout=600)
+                    try:
+                        p = subprocess.run(argv, cwd=wd, stdin=fd, stdout=subprocess.PIPE, stderr=subprocess.PIPE, timeout=240)
+                    except subprocess.TimeoutExpired as te:
+                        # a tool that does not end where the other one exits is an observation like any other (the images here end within
+                        # a few thousand instructions)
+                        p = subprocess.CompletedProcess(argv, -9999, (te.stdout or b"")[:4000] + b"<DOES NOT END>", b"")
                     pos = os.lseek(fd, 0, os.SEEK_CUR)
                 finally:
                     os.close(fd)
                 files = ";".join("%s=%s" % (fn, hashlib.sha256(open(os.path.join(wd, fn), "rb").read()).hexdigest()[:16]) for fn in sorted(os.listdir(wd)) if fn.startswith("simout"))
                 return p, "in%d;%s" % (pos, files)
+            if sum(1 for h in history if h['obs'].startswith('-9999:')) >= 3:
+                break             # three runs that do not end are enough to report
             p1, pos1 = with_stdin([os.path.join(tdir, "hexsim"), b])
             p2, pos2 = with_stdin([os.path.join(tdir, "hextb"), b, "+verilator+seed+%d" % (vlib.seed() + 5)])
             nexe += 2
@@ -181,7 +188,10 @@ def run(tier, replay=None):
         for k in small:
             i, b, inp = allimgs[k]
             wd = os.path.join(d, "exe"); shutil.rmtree(wd, ignore_errors=True); os.makedirs(wd)
-            p = vlib.sh([os.path.join(tdir, "hextb"), "-t", b, "+verilator+seed+%d" % (vlib.seed() + 21)], cwd=wd, input=inp, timeout=300)
+            try:
+                p = vlib.sh([os.path.join(tdir, "hextb"), "-t", b, "+verilator+seed+%d" % (vlib.seed() + 21)], cwd=wd, input=inp, timeout=240)
+            except subprocess.TimeoutExpired:
+                continue          # (judged above: the run without -t)
             o = p.stdout; mark = o.find(b"bytes to memory\n"); o = o[mark + len(b"bytes to memory\n"):] if mark >= 0 else o
             lines = []; calls = []
             for m in TL.finditer(o):
